@@ -1,4 +1,4 @@
-// C08 — configuration parser is total and fails cleanly            vp-link: core
+// C08 — configuration parser is total and fails cleanly            vp-link: core cxx
 //
 // G: (format string, name flags, input bytes, entry point). Format: well-formed delimiter sets of the four
 //    families and hostile ones (any punctuation per position incl. equal start/end, absent entries, short
@@ -10,6 +10,15 @@
 //    two per parse); no sanitizer report, no leak (engine); successful parse: event sequence well nested and
 //    every event path names exactly the open sections; failed mpt_parse_node: target tree identical to the
 //    snapshot (same nodes, names, values, order); successful mpt_parse_node: tree passes the structural walker.
+//
+// C++ front end (first case byte 0x60..0x7f; all other first bytes decode exactly as before): mpt::config_parser with
+//    its default format / the format mpt::layout passes / a drawn well-formed format, its built-in name flags, on
+//    documents written to files in the working directory: open, then a drawn sequence of read / reset / open.
+//    O: a read from the start of a file gives the verdict and the tree of mpt_parse_node on the same bytes with
+//    the same format and flags; a read behind a complete read delivers the empty tree; a failed read leaves the
+//    target node unchanged; open/reset report success exactly when the file exists; no leak.
+#include <unistd.h>
+
 #include "vp.hpp"
 #include "cfgtree.hpp"
 
@@ -255,9 +264,151 @@ static int parse_into(Ctx &c, node *root, const Fmt &f, Flags fl, const std::str
   return r;
 }
 
+// ---- C++ front end: mpt::config_parser (mpt++/parse.cpp) on files
+struct TmpFile {
+  std::string name;
+  TmpFile(const char *tag) {
+    char b[64];
+    snprintf(b, sizeof b, "c08-%ld-%s.conf", (long)getpid(), tag);  // working directory, unique per process
+    name = b;
+    unlink(b);
+  }
+  ~TmpFile() { unlink(name.c_str()); }
+  bool write(const std::string &doc) {
+    FILE *f = fopen(name.c_str(), "w");
+    if (!f) return false;
+    size_t n = doc.empty() ? 0 : fwrite(doc.data(), 1, doc.size(), f);
+    return fclose(f) == 0 && n == doc.size();
+  }
+};
+struct CDoc {  // a document and what the C entry point makes of it
+  std::string text;
+  int rc = 0;
+  std::vector<Node> tree;
+};
+
+static void run_cxx(Ctx &c) {
+  c.label("entry: mpt::config_parser");
+  // format: what the class sets up itself, what mpt::layout passes to set_format(), or a drawn well-formed one
+  static const int fam[] = {'*', 'x', ' ', '_'};
+  size_t fsel = c.weighted({4, 2, 2});
+  Fmt f;
+  if (fsel == 0) { f.null_text = true; decode(f); }
+  else if (fsel == 1) { f.text = "{*} =;#! '\""; decode(f); }  // mpt::layout::file_format()
+  else f = draw_fmt(c, fam[c.weighted({6, 2, 2, 1})]);
+  // name flags of config_parser::config_parser(); a user of the class cannot change them
+  Flags fl;
+  fl.sect = NumCont | Space | Special;
+  fl.opt = NumCont;
+  c.logf("entry: mpt::config_parser, %s, %s", fsel ? "set_format()" : "default format", show(f).c_str());
+  c.logf("%s", show(fl).c_str());
+  c.label(fsel == 0 ? "cxx:default-format" : fsel == 1 ? "cxx:layout-format" : "cxx:drawn-format");
+
+  // two documents for that format (mutated now and then, so that reads fail as well)
+  std::vector<uint8_t> deco[2] = {deco_bytes(c), deco_bytes(c)};
+  std::vector<uint8_t> mut[2];
+  for (int i = 0; i < 2; i++) if (c.chance(80)) mut[i] = c.bytes(c.range(1, 6));
+  GenLimits lim;
+  lim.max_nodes = 16;
+  lim.huge_values = false;
+  lim.max_value = 300;
+  CDoc doc[2];
+  TmpFile file[2] = {TmpFile("a"), TmpFile("b")};
+  for (int i = 0; i < 2; i++) {
+    TreeGen g(c, f, fl, lim);
+    std::vector<Node> t = g.tree();
+    make_expressible(t, f);
+    Ctx dc(deco[i].data(), deco[i].size(), false);
+    Printer pr(dc, f, !deco[i].empty());
+    doc[i].text = pr.render(t);
+    Ctx mc(mut[i].data(), mut[i].size(), false);
+    size_t nm = mut[i].empty() ? 0 : 1 + mc.weighted({5, 3, 1});
+    for (size_t k = 0; k < nm; k++) mutate(c, mc, doc[i].text, f, false);
+    // reference: the C entry point on the same bytes, format and flags
+    {
+      Source src(doc[i].text);
+      CObj<parser_context> pc;
+      src.bind(pc);
+      pc->name.sect = fl.sect;
+      pc->name.opt = fl.opt;
+      Root root;
+      doc[i].rc = mpt_parse_node(root.get(), pc, f.cstr());
+      if (doc[i].rc >= 0) read_list(root.get()->children, doc[i].tree);
+    }
+    c.logf("file %c (%zu bytes, mpt_parse_node=%d, %zu nodes): %s", 'A' + i, doc[i].text.size(), doc[i].rc, count_nodes(doc[i].tree), brief(doc[i].text, 800).c_str());
+    VP_CHECK(c, file[i].write(doc[i].text), "harness", "cannot write %s", file[i].name.c_str());
+  }
+
+  mpt::config_parser parse;
+  if (fsel) VP_CHECK(c, parse.set_format(f.cstr()), "cxx-set-format", "config_parser::set_format refused a format of a supported family");
+  mpt::node to[2];
+  std::vector<Node> have[2];
+  int cur = -1;        // file the parser reads from
+  bool fresh = false;  // positioned at the start of that file
+  bool at_end = false; // the last read consumed the file completely and succeeded
+  size_t fresh_ok = 0, nops = 0, failed_on_populated = 0;
+  for (bool first = true; first || (nops < 14 && c.more()); first = false, ++nops) {
+    size_t op = first ? 2 : c.weighted({5, 3, 1, 1, 1});
+    if (op == 0 && cur >= 0) {
+      int k = (int)c.pick(2);
+      std::vector<const node *> before, after;
+      { std::vector<Node> tmp; read_list(to[k].children, tmp, &before); }
+      int r = parse.read(to[k], 0);
+      std::vector<Node> got;
+      read_list(to[k].children, got, &after);
+      c.logf("  read(target %d) = %d   [file %c, %s]", k, r, 'A' + cur, fresh ? "from the start" : at_end ? "behind a complete read" : "behind a failed read");
+      std::string w = walk(&to[k]);
+      VP_CHECK(c, w.empty(), "tree-links", "config_parser::read=%d, target tree: %s", r, w.c_str());
+      if (r < 0) {
+        VP_CHECK(c, before == after && diff(have[k], got).empty(), "cxx-failed-read-changed-target", "config_parser::read=%d but the target node changed: %s", r, diff(have[k], got).c_str());
+        if (!have[k].empty()) ++failed_on_populated;
+      }
+      if (fresh) {
+        VP_CHECK(c, (r < 0) == (doc[cur].rc < 0), "cxx-read-differs", "read from the start of file %c: config_parser::read=%d, mpt_parse_node on the same bytes=%d", 'A' + cur, r, doc[cur].rc);
+        if (r >= 0) {
+          std::string d = diff(doc[cur].tree, got);
+          VP_CHECK(c, d.empty(), "cxx-read-differs", "read from the start of file %c differs from mpt_parse_node on the same bytes: %s", 'A' + cur, d.c_str());
+          if (!got.empty()) ++fresh_ok;
+        }
+      } else if (at_end) {
+        VP_CHECK(c, r >= 0 && got.empty(), "cxx-read-at-end", "read behind a complete read: config_parser::read=%d, %zu nodes delivered", r, count_nodes(got));
+      }
+      if (r >= 0) have[k] = got;
+      at_end = r >= 0;
+      fresh = false;
+      c.label(r >= 0 ? "cxx:read-ok" : "cxx:read-failed");
+    } else if (op == 1 && cur >= 0) {
+      bool ok = parse.reset();
+      c.logf("  reset() = %d", ok);
+      VP_CHECK(c, ok, "cxx-reset", "config_parser::reset failed on an existing file");
+      fresh = true;
+      at_end = false;
+      c.label("cxx:reset");
+    } else if (op == 4) {
+      bool ok = parse.open("c08-no-such-file.conf");
+      c.logf("  open(missing file) = %d", ok);
+      VP_CHECK(c, !ok, "cxx-open", "config_parser::open reports success for a missing file");
+      c.label("cxx:open-missing");
+    } else {
+      int k = op == 3 ? 1 : 0;
+      bool ok = parse.open(file[k].name.c_str());
+      c.logf("  open(file %c) = %d", 'A' + k, ok);
+      VP_CHECK(c, ok, "cxx-open", "config_parser::open failed on an existing file");
+      cur = k;
+      fresh = true;
+      at_end = false;
+      c.label("cxx:open");
+    }
+  }
+  if (fresh_ok >= 2) c.label("cxx:repeated-read-from-start");
+  if (fresh_ok >= 2 || failed_on_populated) c.nontrivial();
+}
+
 static void run(Ctx &c) {
   // ---- format and flags
-  bool sane = !c.chance(100);
+  uint8_t sel = c.u8();
+  if (sel >= 0x60 && sel < 0x80) { run_cxx(c); return; }
+  bool sane = !(sel >= 156);  // (was c.chance(100): same byte, same meaning)
   static const int fam[] = {'*', 'x', ' ', '_'};
   int family = fam[c.weighted({6, 2, 2, 1})];
   Fmt doc_fmt = draw_fmt(c, family);        // the documents are written for this delimiter set
@@ -353,7 +504,9 @@ static Target t = {
     "NULL, unknown family, arbitrary bytes) x name flags x input (C09-printed document with 0-3 mutations: truncate, duplicate/delete/insert delimiter, stray quote, NUL, high bytes, "
     "runs near 255/256/65535/65536, byte replace/swap; or token soup; optional read error) x entry (mpt_parse_config with recording handler that may refuse an element | mpt_parse_node into empty / "
     "harness-built populated / previously parsed root). non-trivial: parse reached depth >= 2, or failed after at least one accepted element (parse_node: failed on a non-empty input), "
-    "or merged into a populated root; distinct by hash of the draw sequence.",
+    "or merged into a populated root. C++ front end (1 case in 8): mpt::config_parser (default / layout / drawn format, built-in name flags) on two generated files, open then <= 14 of "
+    "read / reset / open A / open B / open missing, differential against mpt_parse_node on the same bytes; non-trivial: >= 2 non-empty reads from the start of a file or a failed read "
+    "into a populated target. Distinct by hash of the draw sequence.",
     run,
     {2500, 6000},
     false,
